@@ -532,6 +532,13 @@ def sym_fmt_value(value, conv, spec):
     if s_is_sym(spec):
         pin_str(spec, "format spec")
         spec = sraw(spec)
+    if is_sym(value) and isinstance(value, int) and not isinstance(value, SBool):
+        import re as _re
+        m = _re.fullmatch(r"0(\d+)d", spec)
+        if m:
+            r = sym_int_render_padded(value, int(m.group(1)))
+            if r is not None:
+                return r
     return format(value, spec)
 
 
@@ -700,6 +707,47 @@ def sym_int_render(i):
     define(z3.And(cons))
     terms = ([z3.IntVal(45)] if neg else []) + [d + 48 for d in ds]
     return mks(SStr, terms, str(c))
+
+
+def digits_fixed(t, width, conc):
+    """code point terms of the zero-padded decimal rendering of 0 <= t < 10**width (fresh digit variables)"""
+    from .core import define, fresh_int
+    ds = [fresh_int("dig") for _ in range(width)]
+    cons = [z3.And(d >= 0, d <= 9) for d in ds]
+    cons.append(t == z3.Sum([d * (10 ** (width - 1 - k)) for k, d in enumerate(ds)]))
+    define(z3.And(cons))
+    return [d + 48 for d in ds]
+
+
+def sym_int_format(i, spec):
+    """format(<symbolic int>, spec) for specs [+]0<width>d ; None if unsupported or the value does not fit the width"""
+    import re as _re
+    m = _re.fullmatch(r"(\+)?0(\d+)d", spec)
+    if not m:
+        return None
+    plus, width = bool(m.group(1)), int(m.group(2))
+    c = int.__index__(i)
+    t = i._t
+    neg = branch(t < 0, c < 0)
+    signed = plus or neg
+    nd = width - (1 if signed else 0)
+    if nd < 1:
+        return None
+    a, ca = (-t, -c) if neg else (t, c)
+    if not branch(a < 10**nd, ca < 10**nd):
+        return None
+    terms = ([z3.IntVal(45 if neg else 43)] if signed else []) + digits_fixed(a, nd, ca)
+    return mks(SStr, terms, format(c, spec))
+
+
+def sym_int_render_padded(i, width):
+    """format(<symbolic int>, '0<width>d') for values that fit the width; None otherwise (caller formats concretely)"""
+    c = int.__index__(i)
+    t = i._t
+    if not branch(z3.And(t >= 0, t < 10**width), 0 <= c < 10**width):
+        return None
+    text = format(c, f"0{width}d")
+    return mks(SStr, digits_fixed(t, width, c), text)
 
 
 # ----------------------------------------------------------------------------- UTF-8
